@@ -223,24 +223,36 @@ def r3_ordered_picks(cx, kinds):
         fn = m.func(q, "C04.R3")
         loops = [s for s in walk_body(fn.body) if isinstance(s, ast.For) and has_exit(s.body, (ast.Return, ast.Break))]
         if not loops:
+            # next(<generator over the implementations>, default) is the same first match
+            class _L(object):
+                pass
+            for x in [c for c in find_calls(fn.body, name="next") if c.args and isinstance(c.args[0], ast.GeneratorExp) and len(c.args[0].generators) == 1]:
+                l_ = _L()
+                l_.iter, l_.target, l_.lineno, l_.col_offset = x.args[0].generators[0].iter, x.args[0].generators[0].target, x.lineno, x.col_offset
+                l_._node = x
+                loops.append(l_)
+        if not loops:
             cx.unknown(fn, "no first-match loop found in %s" % q)
             continue
         for lp in loops:
-            it = lp.iter
+            it = trace(lp.iter, fn) if isinstance(lp.iter, ast.Name) else lp.iter
+            lp = getattr(lp, "_node", lp)
             base = it
             if isinstance(it, ast.Call) and call_name(it) in ("reversed", "list", "iter"):
                 base = it.args[0]
+            if isinstance(base, ast.Name):
+                base = trace(base, fn)
             if isinstance(base, ast.Subscript) and isinstance(base.slice, ast.Slice):
                 base = base.value
             if kinds.unordered(base, fn):
-                cx.bad(lp, "first-match loop iterates an ordered list (the iterable is a set: the pick depends on hash order)", construct="for %s in %s" % (U(lp.target), U(it)))
+                cx.bad(lp, "first-match loop iterates an ordered list (the iterable is a set: the pick depends on hash order)", construct="first match over %s" % U(it))
                 continue
             bt = U(base)
             ok = bt.endswith(".deps") or bt in ("self.deps",) or (q == "first_of" and bt == params(fn)[0])
             if ok:
-                cx.ok(lp, "first-match loop iterates the ordered deps list", construct="for %s in %s" % (U(lp.target), U(it)))
+                cx.ok(lp, "first-match loop iterates the ordered deps list", construct="first match over %s" % U(it))
             elif bt.endswith(".dependencies") or "get_dependencies" in bt:
-                cx.bad(lp, "first-match loop iterates an ordered list (dependencies is a set)", construct="for %s in %s" % (U(lp.target), U(it)))
+                cx.bad(lp, "first-match loop iterates an ordered list (dependencies is a set)", construct="first match over %s" % U(it))
             else:
                 cx.unknown(lp, "iterable of a first-match loop is neither the deps list nor a known set")
     # call sites of dr.first_of pass lists
